@@ -15,6 +15,7 @@ import (
 	"os"
 	"path/filepath"
 	"strings"
+	"sync"
 
 	"github.com/ethereum/go-ethereum/common"
 	"github.com/go-chi/chi/v5/middleware"
@@ -205,12 +206,12 @@ func Run(cfg Config) (int, error) {
 		res.Violate(hx.Violation{Kind: kind, Key: key, What: what, Replay: path})
 	}
 	type item struct {
-		write          bool
-		method, target string
-		out            outcome
+		write           bool
+		method, target  string
+		out             outcome
 		pathTok, rawTok string
-		inAPI          bool
-		ui             bool
+		inAPI           bool
+		ui              bool
 	}
 	items := []item{}
 	lines := []string{}
@@ -248,6 +249,44 @@ func Run(cfg Config) (int, error) {
 		}
 		if o, err := wFirst.do("POST", "/v1/decryptionTrigger", body); err == nil && o.Reached != "trigger" && o.Status == 403 {
 			violate("spec", "not-deterministic", fmt.Sprintf("a write-enabled server refuses POST /v1/decryptionTrigger (%+v) depending on the servers built in the process", o), nil)
+		}
+	}
+	// the very first requests of fresh routers, in parallel: a read-only operation is reachable from the start
+	for round := 0; round < 12 && len(res.Violations) == 0; round++ {
+		for _, w := range []bool{false, true} {
+			sv := newServer(w)
+			const par = 8
+			outs := make([]outcome, par)
+			var wg sync.WaitGroup
+			for k := 0; k < par; k++ {
+				wg.Add(1)
+				go func(k int) {
+					defer wg.Done()
+					rec := httptest.NewRecorder()
+					req, _ := http.NewRequest("GET", "http://keyper/v1/ping", nil)
+					sv.h.ServeHTTP(rec, req)
+					b, _ := io.ReadAll(rec.Body)
+					outs[k] = outcome{Status: rec.Code, Body: strings.TrimSpace(string(b))}
+				}(k)
+			}
+			wg.Wait()
+			res.Count("parallel-first-requests")
+			for _, o := range outs {
+				if o.Status != 200 {
+					violate("spec", "readonly-unreachable", fmt.Sprintf("one of the first %d parallel GET /v1/ping requests of a fresh router (write=%v) was answered %+v", par, w, o), nil)
+					break
+				}
+			}
+		}
+	}
+	// read-only operations carrying a payload (a body is not forbidden on a GET)
+	for _, w := range []bool{false, true} {
+		for _, c := range []struct{ t, want string }{{"/v1/ping", "ping"}, {"/v1/eons", "db-handler"}} {
+			o, err := srvOf(w, false).do("GET", c.t, "{}")
+			res.Count("readonly-with-payload")
+			if err != nil || o.Reached != c.want {
+				violate("spec", "readonly-unreachable", fmt.Sprintf("read-only operation with a request body not reachable (write=%v): GET %s -> %+v", w, c.t, o), nil)
+			}
 		}
 	}
 	for i := 0; i < n && len(res.Violations) == 0; i++ {
